@@ -65,8 +65,17 @@ func (g *Gen) literalFor(typ string) string {
 	case "int":
 		return fmt.Sprint(g.T.Draw("int-default", 100))
 	case "real":
+		// Also the spellings people use for the same numbers: a trailing zero, no leading zero, an exponent.
+		if g.T.Chance("real-default-spelling", 1, 3) {
+			g.use("real-default-in-another-spelling")
+			return []string{"1.0", "1.50", ".5", "1e5", "3.14159265358979"}[g.T.Draw("real-spelling", 5)]
+		}
 		return fmt.Sprintf("%d.5", g.T.Draw("real-default", 10))
 	case "bool":
+		if g.T.Chance("bool-default-keyword", 1, 3) {
+			g.use("bool-default-keyword")
+			return []string{"TRUE", "FALSE", "true"}[g.T.Draw("bool-keyword", 3)]
+		}
 		return fmt.Sprint(g.T.Draw("bool-default", 2))
 	case "num":
 		return fmt.Sprint(g.T.Draw("num-default", 50))
@@ -77,6 +86,11 @@ func (g *Gen) literalFor(typ string) string {
 	if g.T.Chance("template-looking-text", 1, 8) {
 		g.use("template-looking-literal")
 		return []string{"'${d}'", "'%{d}'", "'a$${b}'"}[g.T.Draw("template-text", 3)]
+	}
+	// A text whose value is itself wrapped in quotes.
+	if g.T.Chance("quoted-text-in-quotes", 1, 10) {
+		g.use("text-default-holding-quotes")
+		return fmt.Sprintf("'''q%d'''", g.T.Draw("text-default", 20))
 	}
 	return fmt.Sprintf("'d%d'", g.T.Draw("text-default", 20))
 }
@@ -110,9 +124,15 @@ func (g *Gen) newGenCol(t *Tbl) *Col {
 		return nil
 	}
 	base := t.PK[0]
+	if t.Col("id") != nil {
+		base = "id"
+	}
 	c := &Col{Name: fmt.Sprintf("g%d", g.next()), Type: "integer", Null: true, GenStored: g.T.Chance("stored", 1, 2)}
 	if t.Strict {
 		c.Type = "int"
+	} else if g.T.Chance("generated-column-type-with-comma", 1, 4) {
+		c.Type = "decimal(10,2)"
+		g.use("generated-column-type-with-comma")
 	}
 	c.Gen = fmt.Sprintf("%s + %d", q(base), 1+g.T.Draw("gen-add", 5))
 	if c.GenStored {
@@ -236,6 +256,11 @@ func (g *Gen) newChk(t *Tbl) *Chk {
 	}
 	if kindOf(c.Type) == "int" {
 		k.Expr = fmt.Sprintf("%s >= %d", q(c.Name), g.T.Draw("check-bound", 3))
+		// A conjunction of parenthesised terms: its outer parentheses are not redundant.
+		if g.T.Chance("check-is-a-conjunction", 1, 4) {
+			k.Expr = fmt.Sprintf("(%s >= %d) AND (%s < 900000000)", q(c.Name), g.T.Draw("check-bound", 3), q(c.Name))
+			g.use("check-conjunction-of-parenthesised-terms")
+		}
 	} else {
 		k.Expr = fmt.Sprintf("length(%s) > %d", q(c.Name), g.T.Draw("check-bound", 2))
 	}
@@ -266,7 +291,7 @@ func (g *Gen) newFK(s *Sch, t *Tbl) (*FK, *Col) {
 		if t.Strict {
 			c.Type = "int"
 		}
-		f := &FK{Name: fmt.Sprintf("%s_f%d", t.Name, g.next()), Cols: []string{c.Name, "id"}, RefTable: p.Name, RefCols: []string{p.PK[0], p.PK[1]}}
+		f := &FK{Name: fmt.Sprintf("%s_f%d", t.Name, g.next()), Cols: []string{c.Name, "id"}, RefTable: p.Name, RefCols: []string{"id", "id2"}}
 		f.OnDelete = []string{"", "CASCADE", "NO ACTION"}[g.T.Draw("on-delete", 3)]
 		g.use("composite-fk")
 		return f, c
@@ -324,6 +349,11 @@ func (g *Gen) NewTable(s *Sch) *Tbl {
 		t.Cols = append(t.Cols, &Col{Name: "id", Type: "integer"}, &Col{Name: "id2", Type: "text"})
 		t.PK = []string{"id", "id2"}
 		g.use("composite-pk")
+		// The key's column order need not be the declaration order.
+		if g.T.Chance("pk-order-differs-from-column-order", 1, 2) {
+			t.PK = []string{"id2", "id"}
+			g.use("composite-pk-in-other-order")
+		}
 	default:
 		g.use("no-pk")
 	}
@@ -491,7 +521,22 @@ func (g *Gen) Edit(s *Sch, maxTables int) string {
 		if c == nil || len(t.Cols) >= 7 {
 			return ""
 		}
-		t.Cols = append(t.Cols, c)
+		// Sometimes the new column's name extends the name of a generated column that is declared
+		// after it ("g3x" before "g3"): whoever looks a column up by name in the CREATE statement must
+		// not stop at a longer name.
+		placed := false
+		for i, o := range t.Cols {
+			if o.Gen != "" && t.Col(o.Name+"x") == nil && g.T.Chance("name-extends-a-later-generated-column", 1, 3) {
+				c.Name = o.Name + "x"
+				t.Cols = append(t.Cols[:i:i], append([]*Col{c}, t.Cols[i:]...)...)
+				g.use("generated-column-name-is-prefix-of-earlier-one")
+				placed = true
+				break
+			}
+		}
+		if !placed {
+			t.Cols = append(t.Cols, c)
+		}
 	case "drop-column":
 		cs := regular()
 		if len(cs) == 0 || len(t.Cols) <= 1 {
@@ -678,7 +723,7 @@ func (g *Gen) Edit(s *Sch, maxTables int) string {
 		if g.T.Chance("flip-stored", 1, 2) {
 			c.GenStored = !c.GenStored
 		} else {
-			c.Gen = fmt.Sprintf("%s + %d", q(t.PK[0]), 6+g.T.Draw("gen-add", 5))
+			c.Gen = fmt.Sprintf("%s + %d", q("id"), 6+g.T.Draw("gen-add", 5))
 		}
 	}
 	return kind
